@@ -344,6 +344,23 @@ impl Sandbox {
         }
     }
 
+    /// like `git_in_notick`, with bytes on standard input and extra environment
+    pub fn git_in_notick_full(&mut self, cwd: &Path, args: &[&str], stdin: Option<&[u8]>, env: &[(&str, &str)]) -> Out {
+        let a = Self::os_args(args);
+        match self.mode {
+            Mode::Wrapper => {
+                let p = scratch_root().join("bin").join("git");
+                self.run_raw(&p, None, cwd, &a, stdin, env)
+            }
+            Mode::Hooks => {
+                let mut e: Vec<(&str, &str)> = env.to_vec();
+                e.push(("GIT_AI_GLOBAL_GIT_HOOKS", "true"));
+                self.run_raw(Path::new(REAL_GIT), None, cwd, &a, stdin, &e)
+            }
+            Mode::Plain => self.run_raw(Path::new(REAL_GIT), None, cwd, &a, stdin, env),
+        }
+    }
+
     pub fn git_env(&mut self, cwd: &Path, args: &[&str], env: &[(&str, &str)]) -> Out {
         self.tick();
         let a = Self::os_args(args);
